@@ -177,3 +177,45 @@ pub fn has_legal_moves_wiring<S: Src, const SIDE: u8, const KP: u32, const KN: u
         vassert!("has_legal_moves agrees with the legal generator", h == !owlchess::movegen::legal::gen_all(&b).is_empty());
     }
 }
+
+/// realizable companion of `outcome_classification`: positions in which the side to move has only
+/// its king (opponent arbitrary).  There "has a legal move" is decided by the rules themselves
+/// (8 king steps), so the probe's answer is not a free bit and every counterexample is a real,
+/// natively reproducible position (stalemate / mate against a lone king, incl. insufficient material).
+pub fn outcome_lone_king<S: Src, const SIDE: u8>(s: &mut S) {
+    crate::stubs::draw_hash_pool(s);
+    let b = match any_board(s, SIDE) {
+        Some(b) => b,
+        None => return,
+    };
+    let p = pos_of(b.raw());
+    vassume!(occ_of(&p.cells, |c| c != 0 && color_of(c) == p.side).count_ones() == 1);
+    let k = find_king(&p.cells, p.side);
+    let (kf, kr) = ((k & 7) as i8, (k >> 3) as i8);
+    let mut h = false;
+    let mut d = 0;
+    while d < 8 {
+        let (df, dr) = [(-1i8, -1i8), (-1, 0), (-1, 1), (0, -1), (0, 1), (1, -1), (1, 0), (1, 1)][d];
+        let (f, r) = (kf + df, kr + dr);
+        if f >= 0 && f < 8 && r >= 0 && r < 8 {
+            let m = M { kind: K_SIMPLE, cell: mk(p.side, K), src: k, dst: (r * 8 + f) as u8 };
+            if legal_ref(&p, m) {
+                h = true;
+            }
+        }
+        d += 1;
+    }
+    #[cfg(kani)]
+    unsafe {
+        crate::stubs::HLM = h
+    };
+    let got = b.calc_outcome();
+    let want = outcome_ref(&p, h);
+    vnote!("fen={} legal king step exists={} real probe={} got={:?} want={:?}", b.as_fen(), h, b.has_legal_moves(), got, want);
+    #[cfg(not(kani))]
+    vassert!("has_legal_moves = (a legal king step exists) for a lone king", b.has_legal_moves() == h);
+    vassert!("calc_outcome = forced > mandatory > claimable classification (lone king to move)", got == want);
+    vcover!("lone king stalemated with insufficient material on the board", !h && !in_check_ref(&p) && insufficient_ref(&p.cells));
+    vcover!("lone king mated", !h && in_check_ref(&p));
+    vcover!("lone king with a move", h);
+}
